@@ -243,7 +243,7 @@ def secp_uncompressed(ctx, f):
     # slice-pattern form: `let [_tag, rest @ ..] = self.serialize_uncompressed(); rest` (a [u8; 64] by type)
     from rules.c01 import ret_exprs
     rs = ret_exprs(an)
-    if len(rs) == 1 and f.output and f.output.get("k") == "array" and f.output.get("n") == 64:
+    if len(rs) == 1:
         e = strip(rs[0][2])
         if e.k == "subslice" and e.a[1] == 1 and ((e.a[2] == 65 and not e.a[3]) or (e.a[2] == 0 and e.a[3])) and P.match(e.a[0], P.call(name="serialize_uncompressed", args=[P.param(1)])) is not None:
             return True, ""
